@@ -315,9 +315,18 @@ func (u *Unit) evalGlobalInit(o *types.Var, gi *globalInitInfo, st *State) (Val,
 	savedSpec, savedSafety := u.inSpec, u.noSafety
 	u.inSpec, u.noSafety = false, true
 	defer func() { u.inSpec, u.noSafety = savedSpec, savedSafety }()
-	// evaluate in the entry state so that the value is the same object on every path
-	v := u.evalExprExpect(gi.expr, o.Type(), st)
-	v = u.convert(v, o.Type(), st)
+	// package-level objects exist before the function is entered: evaluate the initialiser in a
+	// scratch copy of the initial state; the facts it produces only mention fresh global symbols
+	// and the initial heap, so they are recorded as axioms
+	gs := &State{env: map[*types.Var]Val{}, heap: map[string]string{}, alloc: "alloc_0", epoch: "epoch_0"}
+	savedMode := u.globalMode
+	u.globalMode = true
+	v := u.evalExprExpect(gi.expr, o.Type(), gs)
+	v = u.convert(v, o.Type(), gs)
+	u.globalMode = savedMode
+	for _, f := range gs.pc {
+		u.reg.axiom(f)
+	}
 	u.globalCache[o] = v
 	return v, true
 }
